@@ -349,7 +349,8 @@ Lemma patch_apply_ok : forall tbl l (m : mstate) sn,
 Proof.
   intros tbl l. induction l as [|[k v] l IH]; intros m sn Ht Hl Hv; simpl.
   - exists m, sn. repeat split; auto.
-  - simpl in Hv. destruct (String.eqb k "Encoding") eqn:Ek.
+  - cbn [patch_valid] in Hv. destruct (engine_maintained k); [discriminate|].
+    destruct (String.eqb k "Encoding") eqn:Ek.
     + destruct v as [|b|e|o]; try discriminate. apply andb_true_iff in Hv. destruct Hv as [Hd Hv].
       destruct (decode (List.length (d_actions (m_desc m))) (m_bits m) e) as [ok bits] eqn:D.
       assert (ok = true) as ->.
@@ -489,10 +490,10 @@ Proof.
   unfold wf_request in Hwf. apply andb_true_iff in Hwf. destruct Hwf as [Hwf Hj]. apply andb_true_iff in Hwf. destruct Hwf as [Hc Ht].
   destruct (rq_toml r) as [|name mv|]; try (now apply spec_fail); [|simpl in Ht; discriminate].
   destruct mv as [| | |d|]; try (now apply spec_fail); [|simpl in Ht; discriminate].
-  assert (HT : tbl_ok (st_soltable s)) by (destruct HI as [_ [HT _]]; exact HT).
-  match goal with |- context[derive _ ?m0] => destruct (derive_ok (st_soltable s) m0 HT) as [m1 [Hm1 [Hd1 [Hi1 Hb1]]]]; rewrite Hm1 end.
+  assert (HT : tbl_ok (@None table)) by (intros t0 Ht0; discriminate).
+  match goal with |- context[derive _ ?m0] => destruct (derive_ok None m0 HT) as [m1 [Hm1 [Hd1 [Hi1 Hb1]]]]; rewrite Hm1 end.
   simpl. eexists _, _. split; [reflexivity|]. split; [|intro H; simpl in H; congruence].
-  destruct HI as [_ [HT' HS]]. split; [|split; simpl; assumption].
+  split; [|split; simpl; [exact HT|split; reflexivity]].
   right. exists (rq_raw r), name, m1, []. simpl. repeat split; auto.
   rewrite Hb1, Hd1. simpl. unfold all_false. apply repeat_length.
 Qed.
